@@ -8,7 +8,7 @@ use crate::jws::encode_kid;
 use crate::logs::HasLogger;
 use crate::storage;
 use crate::{AccountSync, EndpointSync};
-use acme_common::crypto::Csr;
+use acme_common::crypto::{Csr, X509Certificate};
 use acme_common::error::Error;
 use serde_json::json;
 use std::fmt;
@@ -282,6 +282,13 @@ pub async fn request_certificate(
 		.await
 		.map_err(HttpError::in_err)?;
 	drop(data_builder);
+
+	// Never replace the stored certificate by something that is not a certificate for our key
+	let new_cert = X509Certificate::from_pem(crt.as_bytes())
+		.map_err(|e| e.prefix("invalid certificate received from the server"))?;
+	if !new_cert.has_public_key_of(&key_pair)? {
+		return Err("the received certificate does not match the private key".into());
+	}
 	storage::write_certificate(&cert.file_manager, crt.as_bytes()).await?;
 
 	cert.info(&format!(
